@@ -600,11 +600,11 @@ pub fn check_case(c: &Case) -> Vec<Violation> {
         }
         (Err(e), Ok(r)) => {
             // classify
-            let class = if r.tlvs.last().map(|t| t.value.is_empty()).unwrap_or(false) {
-                "final-zero-length-tlv".to_string()
-            } else if r.tlvs.iter().any(|t| t.value.len() % 2 == 1) {
+            let class = if r.tlvs.iter().any(|t| t.value.len() % 2 == 1) {
                 // documented choice: odd TLV lengths are errors (IEEE 1588 14.1: lengthField is even)
                 return out;
+            } else if r.tlvs.last().map(|t| t.value.is_empty()).unwrap_or(false) {
+                "final-zero-length-tlv".to_string()
             } else {
                 format!("type-{}", type_name(r.hdr.msg_type))
             };
